@@ -64,15 +64,17 @@ def run(ctx):
                        "local blockstore afterwards). T: random walks with 2..32 workers, every callback an event. "
                        "non-trivial = a configuration with sharing or a failing node or a depth limit that cuts the DAG")
     # ---------------------------------------------------------------- M
-    ctx.tlc_mc("DagWalk", "MCDagWalk.tla", "MCDagWalk.cfg" if q else "MCDagWalkT.cfg", timeout=2400,
-               coverage=not q, allow_zero=("WHandleDevRoot", "WHandleDevCrash", "WProvideDevRoot"))
-    ctx.tlc_mc("DagWalk", "MCDagWalk.tla", "MCDagWalkH.cfg" if q else "MCDagWalkHT.cfg", timeout=2400)
-    if not q:
-        ctx.tlc_mc("DagWalk", "MCDagWalk.tla", "MCDagWalkC3.cfg", timeout=2400)
-    # the model of the as-built defects must violate the property invariants (sanity of the invariants)
-    r = ctx.tlc_mc("DagWalk", "MCDagWalk.tla", "MCDagWalkDev.cfg", timeout=600, expect_violation=True)
-    if r["violated"] not in ("HandlerCidRight", "NoHandlerCrash", "ProvidedExact", "HandlerCallsRight", "ResultRight"):
-        ctx.broken("the deviation model (Devs = D6, D7) does not violate the property invariants: %s" % r["violated"])
+    devacts = ("WHandleDevRoot", "WHandleDevCrash", "WProvideDevRoot")
+    skip_m = bool(os.environ.get("VERIF_SKIP_M"))      # mutation self-tests only: the model does not depend on /repo
+    if not skip_m:
+        ctx.tlc_mc("DagWalk", "MCDagWalk.tla", "MCDagWalk.cfg", timeout=2400, coverage=not q, allow_zero=devacts)
+    if not q and not skip_m:
+        for cfg in ("MCDagWalkShape4.cfg", "MCDagWalkConc3.cfg", "MCDagWalkHand.cfg"):
+            ctx.tlc_mc("DagWalk", "MCDagWalk.tla", cfg, timeout=3600)
+        # the model of the as-built defects must violate the property invariants (sanity of the invariants)
+        r = ctx.tlc_mc("DagWalk", "MCDagWalk.tla", "MCDagWalkDev.cfg", timeout=900, expect_violation=True)
+        if r["violated"] not in ("HandlerCidRight", "NoHandlerCrash", "ProvidedExact", "HandlerCallsRight", "ResultRight"):
+            ctx.broken("the deviation model (Devs = D6, D7) does not violate the property invariants: %s" % r["violated"])
     # ---------------------------------------------------------------- G
     sdir = ctx.specdir("DagWalk")
     rng = random.Random(ctx.seed)
@@ -80,13 +82,11 @@ def run(ctx):
     with open(os.path.join(sdir, "cases.ndjson"), "w") as f:
         for c in cases:
             f.write(json.dumps(c) + "\n")
-    behs = []
-    behs += ctx.tlc_gen("DagWalk", "GenDagWalk.tla", "GenDagWalkA.cfg" if q else "GenDagWalkAT.cfg", timeout=2400, workers=4)
-    behs += ctx.tlc_gen("DagWalk", "GenDagWalk.tla", "GenDagWalkB.cfg" if q else "GenDagWalkBT.cfg", timeout=2400, workers=4)
-    fb = ctx.tlc_gen("DagWalk", "GenDagWalk.tla", "GenDagWalkFile.cfg", timeout=2400, workers=4)
-    if len(fb) != len({json.dumps(c, sort_keys=True) for c in cases}):
-        ctx.broken("generator produced %d behaviours for %d sampled cases" % (len(fb), len(cases)))
-    behs += fb
+    behs = ctx.tlc_gen("DagWalk", "GenDagWalk.tla", "GenDagWalk.cfg" if q else "GenDagWalkT.cfg", timeout=3600, workers=4)
+    keys = {json.dumps(b["cfg"], sort_keys=True) for b in behs}
+    lost = [c for c in cases if json.dumps(c, sort_keys=True) not in keys]
+    if lost:
+        ctx.broken("generator produced no behaviour for %d sampled cases, e.g. %s" % (len(lost), json.dumps(lost[0])))
     if ctx.brokens:
         return
     binp = ctx.go_build("ipld/merkledag", ["ipld/merkledag/zz_verif_C12_test.go"])
